@@ -186,17 +186,10 @@ theorem regexCut_replace_eq_spec (opt : Opt) (bag : RegexBag) (line : Bytes) (R 
     (cutStrCore line opt [opt.eol.byte]).1 = specRecordRe (cfgOf opt) bag line :=
   cutStr_regex_replace_eq_spec opt bag line R hre hok hr hp hg hjson hty hz hL hstrict hstable
 
-/- NOT PROVED (the `-g` instance of the theorem above; `regexCut_replace_eq_spec` is the
-   non-greedy part of it):
-
-     theorem regexCut_replace_greedy_eq_spec … (hg : opt.greedyDelimiter = true) … :
-       (cutStrCore line opt [opt.eol.byte]).1 = specRecordRe (cfgOf opt) bag line
-
-   The specification is already written for it (`tokenizeRe … true`: gaps of `(RE)+`, a separator
-   counting for the matches of `RE` inside it, rendered as that many `R`) and agrees with the
-   engine on the examples below.  Missing: an extra hypothesis relating the two match lists — every
-   match of `(RE)+` is tiled exactly by the matches of `RE` inside it and no match of `RE` lies in
-   a gap of `(RE)+` — and the induction over two lists that uses it. -/
+/- The `-g` instance of the theorem above is `regexCut_replace_greedy_eq_spec` in `Tuc.Props.C16Greedy`
+   (extra hypothesis `GreedyTiled`: every match of `(RE)+` is tiled exactly by the matches of `RE` inside
+   it and no match of `RE` lies in a gap of `(RE)+`; proved for one-byte expressions of the Lean matcher,
+   measured on the real engine's match lists by the C16 check). -/
 
 /-- the literal text: a separator made of one match is rendered as `R` itself -/
 theorem regexReplace_sep_literal (R x : Bytes) : sepRe (some R) x 1 = R := by
